@@ -147,20 +147,17 @@ func outerBody(sc scenario, rec *recorder, judged *bool) {
 		rec.evLocked("told_to_stop", tv.M{"g": g, "cause": cause, "now": now()})
 	}
 
-	reader := func(st ostep) {
+	reader := func(st ostep, pctx context.Context, pcancel context.CancelFunc) {
 		defer all.Done()
 		g := st.G
-		pctx, pcancel := context.WithCancel(context.Background())
 		defer pcancel()
-		pmu.Lock()
-		parents[g] = pcancel
-		pmu.Unlock()
 		if st.Kind == "precancelled" {
 			rec.ev("cancel", tv.M{"g": g})
 			pcancel()
 		}
 		calling.Store(g, true)
-		rec.ev("acq_call", tv.M{"g": g, "key": 0, "mode": "r", "pre": st.Kind == "precancelled", "now": now()})
+		// pre: the caller's context has already ended (precancelled, or a parent cancel that overtook the call)
+		rec.ev("acq_call", tv.M{"g": g, "key": 0, "mode": "r", "pre": pctx.Err() != nil, "now": now()})
 		rctx, cancel, err := oc.RLock(pctx)
 		calling.Delete(g)
 		rec.mu.Lock()
@@ -225,7 +222,12 @@ func outerBody(sc scenario, rec *recorder, judged *bool) {
 		switch st.Op {
 		case "rlock":
 			all.Add(1)
-			go reader(st)
+			// the parent context exists before the call is on its way (a pcancel step may race the call)
+			pctx, pcancel := context.WithCancel(context.Background())
+			pmu.Lock()
+			parents[st.G] = pcancel
+			pmu.Unlock()
+			go reader(st, pctx, pcancel)
 			total += st.D
 		case "lock":
 			all.Add(1)
@@ -247,7 +249,9 @@ func outerBody(sc scenario, rec *recorder, judged *bool) {
 			rec.ev("shutdown", nil)
 			shutdown()
 		}
-		synctest.Wait()
+		if !st.NoWait {
+			synctest.Wait()
+		}
 	}
 	// let everything run out: every grace period and every hold, several times over
 	for i := 0; i < 4; i++ {
